@@ -328,6 +328,8 @@ class Report:
         self.cov = {"evaluations": 0, "distinct_nontrivial": 0, "samples": [], "streams": {}}
         self.assumptions = []
         self.known_hit = []
+        for f in glob.glob(os.path.join(REPLAY, prop + "-*.json")):
+            os.remove(f)
 
     def stream(self, name, n, nontrivial, samples, extra=None):
         self.cov["evaluations"] += n
